@@ -3,15 +3,38 @@
 import json
 
 XH = "CrossHair 0.0.110 symbolic execution (z3 5.1.0) of the generated (de)serializers"
+GEN = ("Bounded symbolic model checking with CrossHair/z3: the real generated functions are executed symbolically; each "
+       "obligation must come back 'Confirmed over all paths' within the stated bounds, each harness has a reachability twin "
+       "that must be refuted, and every counterexample is replayed on the real code in a fresh interpreter before it is reported. ")
+NOTE = ("Trusted: CrossHair's model of Python, z3; reference interpreters in vf/oracle.py (written from README); value pools "
+        "for C-implemented leaf types; concrete dict keys with symbolic presence; stated container/position bounds; schemas and "
+        "configurations are enumerated (programs), not solver-quantified. ")
+T = "symbolic execution of generated code (CrossHair/z3), bounded"
+
+
+def c(text, note="", ref="", technique=T):
+    return dict(text=GEN + text, note=NOTE + note, technique=technique, ref=ref)
+
+
 CHECKS = {
-    "C01": dict(
-        text="Bounded symbolic model checking: for every schema of the enumerated grammar the real generated "
-             "to_dict/from_dict and codec encode/decode functions are executed symbolically by CrossHair over all "
-             "values within the stated bounds; 'Confirmed over all paths' per obligation, reachability twin per "
-             "harness, counterexamples replayed on the real code.",
-        note="Trusted: CrossHair's Python model, z3; value pools for C-implemented leaf types; concrete dict keys; "
-             "container length <= 2 (3 thorough); schemas enumerated (depth <= 3), not solver-quantified.",
-        technique="symbolic execution of generated code (CrossHair/z3), bounded", ref="6 C01"),
+    "C01": c("Round trip decode(encode(v)) == v with identical classes for all conforming values of every schema of the grammar, "
+             "through mixins and codecs.", ref="6 C01"),
+    "C02": c("encode(v) equals an independent reference encoder (order- and type-exact) for all conforming values; basic-types-only "
+             "output; format dialects observed through identity encoders.", "json.dumps replaced by its acceptance condition.", "6 C02"),
+    "C03": c("decode(d) vs independent reference decoder + exact-class conformance for arbitrary JSON-like input at the root / "
+             "field position.", "Scalars of arbitrary inputs come from boundary pools chosen by solver-controlled selectors.", "6 C03"),
+    "C05": c("Outcome of from_dict on corrupted inputs (non-dicts, one or two arbitrary fields, missing keys, extra keys) equals the "
+             "first-failing-field model; input unchanged.", ref="6 C05"),
+    "C07": c("Absent keys take the default / a fresh factory result, present keys win, non-constructor members are never read, for "
+             "every subset of present keys of every enumerated field layout.", ref="6 C07"),
+    "C08": c("to_dict under every enumerated option vector equals PROJECT(o, plain) for all instance values and keyword flags.",
+             ref="6 C08"),
+    "C09": c("from_dict result/exception equals KEYMODEL for every subset of candidate keys (names, aliases, shadowed aliases, "
+             "strangers, literals harvested from the generated source) under every alias-source assignment.", ref="6 C09"),
+    "C10": c("Resolution functions run on 14 symbolic presence bits return the lexicographic minimum; end-to-end tagged classes "
+             "for enumerated subsets agree.", ref="6 C10"),
+    "C11": c("Union/Optional/Literal decode equals REF_UNION_DECODE for arbitrary input, encode equals the member's encoding.",
+             "Union-order reading documented in DESIGN.md.", "6 C11"),
 }
 PENDING = {
 }
